@@ -217,12 +217,21 @@ def r95(ctx, prog):
     f = sem['fn']
     n = 0
     bad = []
+    # the specification, not the code's own predicates (C02 T5 checks those): a function when directly followed by `(`, a literal
+    # or another identifier; an assignment target when followed by an assignment operator
+    try:
+        tsym = tables.display_symbols(prog, tables.TOKEN)
+    except tables.TableError:
+        tsym = {}
+    spec_left = {'LBrace'} | {n_ for n_, s_ in tsym.items() if s_ is None}
+    spec_assign = {n_ for n_, s_ in tsym.items() if s_ and s_.endswith('=') and s_ not in ('==', '!=', '>=', '<=')}
+    ctx.check(spec_left == {'LBrace', 'Identifier', 'Float', 'Int', 'Boolean', 'String'} and len(spec_assign) == 9, 'R9.5', 'spec-sets', 'spec', 'tokens that start an operand: %s; assignment tokens: %s' % (sorted(spec_left), sorted(spec_assign)), span=f.span)
     for N, got in sorted(sem['ident_next'].items(), key=lambda kv: str(kv[0])):
         if N is None:
             want = 'VariableIdentifierRead'
-        elif tp['is_assignment'][N]:
+        elif N in spec_assign:
             want = 'VariableIdentifierWrite'
-        elif tp['is_leftsided_value'][N]:
+        elif N in spec_left:
             want = 'FunctionIdentifier'
         else:
             want = 'VariableIdentifierRead'
